@@ -388,7 +388,7 @@ pub fn sim_case_strategy() -> BoxedStrategy<SimCase> {
     let pc = || prop_oneof![1 => Just(0u16), 2 => Just(1u16), 6 => 2000u16..=65535];
     let cnt = || prop_oneof![12 => 0u16..=12, 3 => 13u16..=80, 1 => 80u16..=400];
     (
-        (0u8..6, 1u8..=3, prop_oneof![1 => Just(0u64), 1 => Just(u64::MAX), 8 => any::<u64>()], 1u16..=200, prop_oneof![Just(100u64), Just(1000u64), Just(1_000_000u64)], 1u32..=10),
+        (0u8..6, 1u8..=3, prop_oneof![1 => Just(0u64), 1 => Just(u64::MAX), 8 => any::<u64>()], 1u16..=200, prop_oneof![3 => Just(100u64), 3 => Just(1000u64), 2 => Just(1_000_000u64), 1 => Just(0u64), 1 => 1u64..50, 1 => Just(1u64 << 40)], 1u32..=10),
         // agent counts: mostly small, but also the hundreds of traders of the project's own examples, so
         // that code paths depending on the population size (many live orders per agent set) are reached
         (cnt(), cnt(), cnt(), pc(), pc(), pc(), pc()),
